@@ -243,7 +243,8 @@ func c12Sequence(c *core.Ctx, k c12Cfg, length int) {
 		relay := c12Str(c)
 		nameID := c12Str(c)
 		reqID := "id-" + c12Str(c)
-		desc := fmt.Sprintf("%s kind=%d relay=%q nameID=%q reqID=%q step=%d/%d", k, kind, truncate(relay, 60), truncate(nameID, 40), truncate(reqID, 40), step, length)
+		artifactResult := kind < 2 && c.Rng.Intn(4) == 0
+		desc := fmt.Sprintf("%s kind=%d%s relay=%q nameID=%q reqID=%q step=%d/%d", k, kind, map[bool]string{true: "(result-binding=artifact)", false: ""}[artifactResult], truncate(relay, 60), truncate(nameID, 40), truncate(reqID, 40), step, length)
 		c.Journal("C12 " + desc)
 		rnd.Reset()
 		var u *url.URL
@@ -252,9 +253,23 @@ func c12Sequence(c *core.Ctx, k c12Cfg, length int) {
 		p, pv, frame, _ := core.Guard(func() {
 			switch kind {
 			case 0:
-				u, err = sp.MakeRedirectAuthenticationRequest(relay)
+				if artifactResult { // the SP asks for the answer through the artifact binding (as the samlsp middleware does when so configured)
+					var ar *saml.AuthnRequest
+					if ar, err = sp.MakeAuthenticationRequest(sp.GetSSOBindingLocation(saml.HTTPRedirectBinding), saml.HTTPRedirectBinding, saml.HTTPArtifactBinding); err == nil {
+						u, err = ar.Redirect(relay, sp)
+					}
+				} else {
+					u, err = sp.MakeRedirectAuthenticationRequest(relay)
+				}
 			case 1:
-				page, err = sp.MakePostAuthenticationRequest(relay)
+				if artifactResult {
+					var ar *saml.AuthnRequest
+					if ar, err = sp.MakeAuthenticationRequest(sp.GetSSOBindingLocation(saml.HTTPPostBinding), saml.HTTPPostBinding, saml.HTTPArtifactBinding); err == nil {
+						page = ar.Post(relay)
+					}
+				} else {
+					page, err = sp.MakePostAuthenticationRequest(relay)
+				}
 			case 2:
 				u, err = sp.MakeRedirectLogoutRequest(nameID, relay)
 			case 3:
